@@ -85,6 +85,28 @@ func (c *Ctx) retryAnchors() *retryAnchors {
 			}
 		}
 	}
+	// the task queue / wake-up channel / established list grouped into a by-value struct field of a package type
+	for i := 0; i < st.NumFields(); i++ {
+		inner, ok := st.Field(i).Type().Underlying().(*types.Struct)
+		if !ok {
+			continue
+		}
+		if n, isNamed := st.Field(i).Type().(*types.Named); !isNamed || n.Obj().Pkg() != c.TPkg {
+			continue
+		}
+		for j := 0; j < inner.NumFields(); j++ {
+			g := inner.Field(j)
+			ts := types.TypeString(g.Type(), func(p *types.Package) string { return "" })
+			switch {
+			case a.TaskQueue == nil && isTaskSlice(g.Type()) && !isRetryFnSlice(g.Type()):
+				a.TaskQueue = g
+			case a.ChTask == nil && ts == "chan struct{}":
+				a.ChTask = g
+			case a.SubEst == nil && ts == "subscriptions":
+				a.SubEst = g
+			}
+		}
+	}
 	if a.NewRetry == nil {
 		// role: the only bool field stored `true` next to an append to the retry queue
 		for i := 0; i < st.NumFields(); i++ {
@@ -139,6 +161,14 @@ func isAddrOfField(v ssa.Value, fld *types.Var) (ssa.Value, bool) {
 	b, f := fieldOf(fa)
 	if f != fld {
 		return nil, false
+	}
+	// a field of a struct held by value inside the owner (c.tasks.queue): the owner is the base
+	for {
+		outer, ok := b.(*ssa.FieldAddr)
+		if !ok {
+			break
+		}
+		b = outer.X
 	}
 	return b, true
 }
@@ -310,8 +340,14 @@ func (c *Ctx) reportsError(a *retryAnchors, in ssa.Instruction, errV ssa.Value) 
 	if !ok || call.Call.IsInvoke() {
 		return false
 	}
-	if a.OnError != nil && c.StaticCalleeOf(&call.Call) == a.OnError && len(call.Call.Args) == 2 {
-		return c.errOrigin(call.Call.Args[1]) == errV
+	if a.OnError != nil && c.StaticCalleeOf(&call.Call) == a.OnError && len(call.Call.Args) >= 2 {
+		// the error operand, whatever else (an operation label for a trace hook, …) is passed along
+		for i, arg := range call.Call.Args[1:] {
+			if types.TypeString(arg.Type(), nil) == "error" && c.errOrigin(arg) == errV {
+				return c.onErrorForwards(a, i+1)
+			}
+		}
+		return false
 	}
 	if a.OnErrorField != nil && len(call.Call.Args) == 1 {
 		if _, isCB := isLoadOfField(call.Call.Value, a.OnErrorField); isCB {
@@ -358,4 +394,26 @@ func (c *Ctx) noCallbackEdges(a *retryAnchors, f *ssa.Function) func(*ssa.BasicB
 		}
 	}
 	return func(b *ssa.BasicBlock, k int) bool { return set[ek{b, k}] }
+}
+
+// onErrorForwards: the onError method hands its parameter number idx to the OnError callback on every path on which a
+// callback is registered.
+func (c *Ctx) onErrorForwards(a *retryAnchors, idx int) bool {
+	f := a.OnError
+	if f == nil || f.Blocks == nil || idx >= len(f.Params) || a.OnErrorField == nil {
+		return f != nil && f.Blocks != nil && a.OnErrorField == nil
+	}
+	p := f.Params[idx]
+	isCB := func(in ssa.Instruction) bool {
+		call, ok := in.(*ssa.Call)
+		if !ok || call.Call.IsInvoke() || len(call.Call.Args) != 1 {
+			return false
+		}
+		if _, isField := isLoadOfField(call.Call.Value, a.OnErrorField); !isField {
+			return false
+		}
+		return c.Resolve(call.Call.Args[0]) == ssa.Value(p)
+	}
+	_, skip := CanReach(f, nil, realExit, PathQ{BlockInstr: isCB, BlockEdge: c.noCallbackEdges(a, f)})
+	return !skip
 }
